@@ -253,8 +253,12 @@ func (h *hRunner) genSession(assoc int) (*vEstSpec, *mSession, map[uint16]*mFlow
 			app := qids[rng.Intn(len(qids)-1)]
 			sq := qids[len(qids)-1]
 			up.QERs, dn.QERs = []uint32{app, sq}, []uint32{app, sq}
-			if !c.UP4 && !c.SafeQER && rng.Intn(3) == 0 {
+			if !c.UP4 && rng.Intn(3) == 0 {
+				// the session-wide QER listed first (the order a control plane that thinks "session AMBR, then flow MBR" uses)
 				dn.QERs = []uint32{sq, app}
+				if rng.Intn(2) == 0 {
+					up.QERs = []uint32{sq, app}
+				}
 			}
 		}
 		est.PDRs = append(est.PDRs, up, dn)
@@ -281,6 +285,12 @@ func (h *hRunner) genSession(assoc int) (*vEstSpec, *mSession, map[uint16]*mFlow
 			x.QFI = c.QFIs[0]
 		}
 		est.QERs = append([]vQERSpec{x}, est.QERs...)
+	}
+	if len(est.QERs) > 1 && rng.Intn(2) == 0 {
+		// the order of the Create QER IEs in the message carries no meaning: the session-wide QER first
+		for i, j := 0, len(est.QERs)-1; i < j; i, j = i+1, j-1 {
+			est.QERs[i], est.QERs[j] = est.QERs[j], est.QERs[i]
+		}
 	}
 	for _, q := range est.QERs {
 		ms.QERs = append(ms.QERs, &mQER{q})
@@ -367,7 +377,31 @@ func (h *hRunner) next() *hOp {
 func (h *hRunner) genNegative() *hOp {
 	rng := h.rng
 	a := rng.Intn(len(h.peers))
-	switch rng.Intn(4) {
+	switch rng.Intn(5) {
+	case 4:
+		// a modification of a live session that is rejected half-way: valid removals / updates of rules that are not
+		// the last of their kind, followed by the removal of a rule the session does not have. Nothing may change -
+		// neither at the datapath nor in what the agent remembers of the session (later requests show the latter).
+		ss := h.sessionsOf(a)
+		if len(ss) == 0 {
+			return &hOp{Kind: "neg", Neg: "est-no-assoc", Assoc: a, Seq: h.seq(), Desc: "est without association"}
+		}
+		s := ss[rng.Intn(len(ss))]
+		mod := &vModSpec{Seq: h.seq(), SEID: s.UP}
+		what := "far"
+		switch {
+		case len(s.QERs) >= 2 && rng.Intn(2) == 0:
+			mod.RmQER = []uint32{s.QERs[rng.Intn(len(s.QERs)-1)].Spec.ID, 0x7777}
+			what = "qer"
+		case len(s.FARs) >= 2 && rng.Intn(2) == 0:
+			mod.RmFAR = []uint32{s.FARs[rng.Intn(len(s.FARs)-1)].Spec.ID, 0x7777}
+		default:
+			f := s.FARs[0].Spec
+			mod.UpFAR = []vFARSpec{{ID: f.ID, Action: ActionDrop, Fwd: true, HasDst: true, DstIf: f.DstIf}}
+			mod.RmFAR = []uint32{0x7777}
+			what = "upfar"
+		}
+		return &hOp{Kind: "neg", Neg: "mod-halfway", Assoc: a, Sess: s, Mod: mod, Seq: mod.Seq, Desc: fmt.Sprintf("mod a%d up=%#x rejected half-way (%s)", a, s.UP, what)}
 	case 0:
 		return &hOp{Kind: "neg", Neg: "mod-unknown-seid", Assoc: a, Seq: h.seq(), Desc: "mod unknown seid"}
 	case 1:
@@ -465,6 +499,17 @@ func (h *hRunner) genMod(a int, s *mSession) *hOp {
 		if p.Flow != nil {
 			op.Flows[np.ID] = p.Flow
 		}
+		if !c.UP4 && len(np.QERs) == 2 && !hEveryPDRHas(s, np.QERs[0]) && !hEveryPDRHas(s, np.QERs[1]) && np.QERs[0] > np.QERs[1] {
+			// (C09.R5 territory, see below: the application QER goes first)
+			np.QERs = []uint32{np.QERs[1], np.QERs[0]}
+		} else if !c.UP4 && len(np.QERs) == 2 && rng.Intn(2) == 0 {
+			// the same two QERs, listed the other way round: the set is what counts. (Only while every PDR of the session
+			// still references the session-wide QER; otherwise the recorded finding C09.R5 applies - the agent keeps a
+			// session-level QER that a newer PDR does not reference - and the order of the list would become visible.)
+			if hEveryPDRHas(s, np.QERs[0]) || hEveryPDRHas(s, np.QERs[1]) {
+				np.QERs = []uint32{np.QERs[1], np.QERs[0]}
+			}
+		}
 		mod.UpPDR = append(mod.UpPDR, np)
 	case "uppdr":
 		h.sawKeyChange = true
@@ -509,6 +554,9 @@ func (h *hRunner) genMod(a int, s *mSession) *hOp {
 		}
 		if fl != nil {
 			op.Flows[np.ID] = fl
+		}
+		if !c.UP4 && len(np.QERs) == 2 && !hEveryPDRHas(s, np.QERs[0]) && !hEveryPDRHas(s, np.QERs[1]) && np.QERs[0] > np.QERs[1] {
+			np.QERs = []uint32{np.QERs[1], np.QERs[0]} // (C09.R5 territory, see uppdr-same)
 		}
 		mod.UpPDR = append(mod.UpPDR, np)
 	case "create":
@@ -670,6 +718,8 @@ func (h *hRunner) raw(op *hOp) []byte {
 			return p.deletion(op.Seq, 0xDEAD0000+uint64(h.rng.Intn(1000)))
 		case "est-wrong-nodeid":
 			return p.establish(*op.Est)
+		case "mod-halfway":
+			return p.modify(*op.Mod)
 		}
 	}
 	return nil
@@ -970,4 +1020,20 @@ func hSig(h *hRunner) string {
 	}
 	sort.Strings(parts)
 	return fmt.Sprint(parts)
+}
+
+// hEveryPDRHas: every PDR of the session lists QER id.
+func hEveryPDRHas(s *mSession, id uint32) bool {
+	for _, x := range s.PDRs {
+		has := false
+		for _, q := range x.Spec.QERs {
+			if q == id {
+				has = true
+			}
+		}
+		if !has {
+			return false
+		}
+	}
+	return true
 }
